@@ -228,8 +228,21 @@ def check(ctx):
                                   {'got': [T.pretty(a)[:160] for a in got], 'want': [T.pretty(a)[:160] for a in want]})
                 u = upd_by_pre(ls, pre)
                 nxt = ('hcall', c['refine']) + tuple(got)
-                if u['next'] == nxt or (isinstance(u['next'], tuple) and u['next'][0] == 'ite' and nxt in u['next']):
-                    ctx.holds('R4.mpi_state_chain', w, 'the refined state is what the next iteration samples with')
+                # the refinement itself must be unconditional: every rank refines after every iteration
+                # that is followed by another one (a condition on rank-local data lets the ranks diverge)
+                def is_cb(c_):
+                    a_ = c_[1] if isinstance(c_, tuple) and c_ and c_[0] == 'not' else c_
+                    return isinstance(a_, tuple) and a_ and a_[0] == 'truth' and isinstance(a_[1], tuple) and \
+                        a_[1][0] in ('hcall', 'ucall') and 'callback' in str(a_[1][1])
+                rpc = [c_ for c_ in rf[0][0]['pc'] if not is_cb(c_)]
+                if u['next'] == nxt and not rpc:
+                    ctx.holds('R4.mpi_state_chain', w, 'the refined state is what the next iteration samples '
+                              'with, on every rank and after every iteration')
+                elif u['next'] == nxt or rpc:
+                    ctx.violation('R4.mpi_state_chain', w, 'the local refinement is conditional (%s): a rank for '
+                                  'which the condition fails samples the next iteration with a state that is '
+                                  'not the refinement of the result just stored, and the ranks disagree'
+                                  % T.pretty(T.conj(rpc))[:200], {'next': T.pretty(u['next'])[:300]})
                 else:
                     ctx.violation('R4.mpi_state_chain', w, 'the refined state is not carried to the next iteration',
                                   {'next': T.pretty(u['next'])[:300]})
